@@ -1,16 +1,28 @@
 package main
 
+import (
+	"fmt"
+
+	"github.com/yaricom/goNEAT/v4/neat/genetics"
+	"github.com/yaricom/goNEAT/v4/neat/network"
+)
+
 // C03 — an innovation number denotes one connection for the life of a population.
 //
 // E1 over the same multi-epoch runs as C02 with the InnovationLedger attached for
 // the whole history; structural-heavy profiles weighted up.
 
 func init() {
-	register("C03", "model_checking", runC03, replayEpochs("C03", oLedger))
+	register("C03", "model_checking", runC03, func(c *Ctx, rp *Replay) (bool, string) {
+		if rp.Scenario == "generation" {
+			return c03ReplayGeneration(c, rp)
+		}
+		return replayEpochs("C03", oLedger)(c, rp)
+	})
 }
 
 func planC03(c *Ctx) epochPlan {
-	seeds := []string{"xor", "evolved", "read", "disc", "rand", "randrec", "hb4"}
+	seeds := []string{"xor", "evolved", "read", "disc", "rand", "randrec", "hb4", "modular"}
 	modes := []string{"phase", "whole", "perspecies"}
 	fits := []int{0, 1, 2, 5, 6}
 	pl := epochPlan{prop: "C03", oracles: oLedger}
@@ -28,6 +40,243 @@ func planC03(c *Ctx) epochPlan {
 }
 
 func runC03(c *Ctx) {
+	c03Generations(c)
 	runEpochPlan(c, planC03(c))
-	finishEpochEvidence(c, "E1 choice-tree exploration of multi-epoch runs (see C02) with an innovation ledger kept over the whole history of each run: equal innovation number => equal (in, out, recurrent); equal node id => equal role; every number / node id first seen in a generation exceeds every one held before; under the sequential executor identical new links carry identical numbers and the generation's record never holds the same innovation twice (phase-wise driving); the record is empty after every epoch; issue counters start at/after the largest numbers of the initial population. states = distinct end-state hashes, transitions = populations produced")
+	finishEpochEvidence(c, "E1 choice-tree exploration of multi-epoch runs (see C02) with an innovation ledger (connection genes and module genes) kept over the whole history of each run: equal innovation number => equal (in, out, recurrent); equal node id => equal role; every number / node id first seen in a generation exceeds every one held before; under the sequential executor identical new links carry identical numbers and the generation's record never holds the same innovation twice (phase-wise driving); the record is empty after every epoch; issue counters start at/after the largest numbers of the initial population. Plus the generation stage: every sequence of up to L (baby, structural mutator) steps of one sequential generation over a pool of four parents (one link held under two numbers by two parents, a forward/recurrent pair between the same nodes, a disconnected late sensor) with a real Population as the innovation record, all choice sequences within 1 deviation of Z/M/A over the whole generation: identical new links and identical splits of the same gene get identical numbers and node ids, new numbers exceed everything held, no number denotes two links, no record twice. states = distinct end-state hashes, transitions = populations produced + mutator steps")
+}
+
+// ---------------------------------------------------------------------------
+// generation stage: the structural mutators of ONE sequential generation
+
+// c03Pool: the parents of the generation. Innovation numbers 1..12 and node ids 1..6 are held.
+func c03Pool() []*GenomeSpec {
+	act := xorSeed().Nodes[3].Act
+	nodes := func(extra ...NodeSpec) []NodeSpec {
+		n := []NodeSpec{{1, network.BiasNeuron, 17, 1}, {2, network.InputNeuron, 17, 1}, {3, network.InputNeuron, 17, 0}, {4, network.OutputNeuron, act, 1}, {5, network.HiddenNeuron, act, 1}}
+		return append(n, extra...)
+	}
+	tr := []TraitSpec{{1, params8(0.1)}, {2, params8(0.6)}}
+	gn := func(in, out int, innov int64, rec bool) GeneSpec {
+		return GeneSpec{In: in, Out: out, W: 0.5 * float64(innov), Innov: innov, Mut: 0.5, En: true, Trait: 1, Rec: rec}
+	}
+	// A and B hold the link 2->4 under two numbers (2 and 7) as the first gene add-node may split
+	a := &GenomeSpec{ID: 1, Traits: tr, Nodes: nodes(), Genes: []GeneSpec{gn(1, 4, 1, false), gn(2, 4, 2, false), gn(3, 5, 4, false), gn(5, 4, 5, false)}}
+	b := &GenomeSpec{ID: 2, Traits: tr, Nodes: nodes(), Genes: []GeneSpec{gn(1, 4, 1, false), gn(2, 4, 7, false), gn(3, 5, 8, false), gn(5, 4, 9, false)}}
+	// C: a forward and a recurrent gene between the same nodes
+	cc := &GenomeSpec{ID: 3, Traits: tr, Nodes: nodes(), Genes: []GeneSpec{gn(1, 4, 1, false), gn(5, 4, 5, false), gn(5, 4, 10, true), gn(3, 5, 11, false), gn(4, 5, 12, true)}}
+	// D: an unconnected sensor listed after the neurons
+	d := &GenomeSpec{ID: 4, Traits: tr, Nodes: nodes(NodeSpec{6, network.InputNeuron, 17, 1}), Genes: []GeneSpec{gn(1, 4, 1, false), gn(2, 4, 2, false), gn(5, 4, 5, false), gn(3, 5, 4, false)}}
+	sortGenes := func(g *GenomeSpec) {
+		for i := 1; i < len(g.Genes); i++ {
+			for j := i; j > 0 && g.Genes[j-1].Innov > g.Genes[j].Innov; j-- {
+				g.Genes[j-1], g.Genes[j] = g.Genes[j], g.Genes[j-1]
+			}
+		}
+	}
+	sortGenes(d)
+	return []*GenomeSpec{a, b, cc, d}
+}
+
+var c03Ops = []string{"addNode", "addLink", "connectSensors"}
+
+type c03Step struct {
+	Parent int    `json:"parent"`
+	Op     string `json:"op"`
+}
+
+// c03RunGeneration applies the steps (each to a fresh copy of its parent, as reproduction does) with
+// one real Population as the innovation record and returns "" or the first discrepancy.
+func c03RunGeneration(steps []c03Step, x *Exec) (clause, msg string) {
+	pool := c03Pool()
+	opts := gsOptions()
+	pop := genetics.VNewEmptyPopulation()
+	pop.VSetCounters(12, 6) // the largest innovation number and node id held by the parents
+	held := map[int64]linkKey{}
+	for _, g := range pool {
+		for _, gn := range g.Genes {
+			held[gn.Innov] = linkKey{gn.In, gn.Out, gn.Rec}
+		}
+	}
+	const hwI, hwN = int64(12), 6
+	freshLink := map[linkKey]int64{}
+	type split struct {
+		node   int
+		n1, n2 int64
+	}
+	splits := map[int64]split{}
+	for si, st := range steps {
+		parent := pool[st.Parent]
+		g := parent.Build()
+		g.Id = 100 + si
+		var ok bool
+		var err error
+		switch st.Op {
+		case "addNode":
+			ok, err = g.VMutateAddNode(pop, pop, opts)
+		case "addLink":
+			ok, err = g.VMutateAddLink(pop, 1, opts)
+		case "connectSensors":
+			ok, err = g.VMutateConnectSensors(pop, opts)
+		}
+		if err != nil || !ok {
+			continue
+		}
+		after := SpecOf(g)
+		had := geneMap(parent)
+		var fresh []GeneSpec
+		for _, gn := range after.Genes {
+			if _, was := had[gn.Innov]; !was {
+				fresh = append(fresh, gn)
+			}
+		}
+		where := fmt.Sprintf("step %d (%s on a copy of parent %d)", si+1, st.Op, st.Parent+1)
+		for _, gn := range fresh {
+			k := linkKey{gn.In, gn.Out, gn.Rec}
+			if o, ok := held[gn.Innov]; ok && o != k {
+				return "innovation-two-links", fmt.Sprintf("%s: innovation %d denotes %d->%d rec=%v and %d->%d rec=%v", where, gn.Innov, o.In, o.Out, o.Rec, k.In, k.Out, k.Rec)
+			}
+			if _, ok := held[gn.Innov]; !ok && gn.Innov <= hwI {
+				return "innovation-not-fresh", fmt.Sprintf("%s: the new gene %d->%d got innovation %d, not larger than the largest number held before the generation (%d)", where, k.In, k.Out, gn.Innov, hwI)
+			}
+			held[gn.Innov] = k
+		}
+		roles := nodeRoles(parent)
+		newNode := -1
+		for _, n := range after.Nodes {
+			if _, was := roles[n.ID]; !was {
+				newNode = n.ID
+				if n.ID <= hwN {
+					return "node-id-not-fresh", fmt.Sprintf("%s: the new node got id %d, not larger than the largest id held before the generation (%d)", where, n.ID, hwN)
+				}
+			}
+		}
+		if st.Op == "addNode" {
+			var old int64 = -1
+			for _, gn := range after.Genes {
+				if p, was := had[gn.Innov]; was && p.En && !gn.En {
+					old = gn.Innov
+				}
+			}
+			if old < 0 || newNode < 0 || len(fresh) != 2 {
+				continue // C05 judges the shape of the mutation
+			}
+			sp := split{newNode, fresh[0].Innov, fresh[1].Innov}
+			if o, ok := splits[old]; ok && o != sp {
+				return "same-split-two-numbers", fmt.Sprintf("%s: gene #%d was split twice in one generation: first into node %d with genes #%d, #%d, now into node %d with genes #%d, #%d", where, old, o.node, o.n1, o.n2, sp.node, sp.n1, sp.n2)
+			}
+			splits[old] = sp
+			continue
+		}
+		for _, gn := range fresh {
+			k := linkKey{gn.In, gn.Out, gn.Rec}
+			if o, ok := freshLink[k]; ok && o != gn.Innov {
+				return "same-innovation-two-numbers", fmt.Sprintf("%s: the new link %d->%d rec=%v arose twice in one generation under numbers %d and %d", where, k.In, k.Out, k.Rec, o, gn.Innov)
+			}
+			// a link that a parent already holds under an older number may legitimately be invented again by a genome that lacks it
+			freshLink[k] = gn.Innov
+		}
+	}
+	// the record of the generation holds no innovation twice
+	seen := map[string]bool{}
+	for _, in := range pop.VInnovationsRaw() {
+		k := fmt.Sprintf("%v|%d|%d|%v|%d", in.VIsNode(), in.InNodeId, in.OutNodeId, in.IsRecurrent, in.OldInnovNum)
+		if seen[k] {
+			return "record-twice", fmt.Sprintf("the generation's record holds the innovation (node=%v %d->%d rec=%v old=%d) twice", in.VIsNode(), in.InNodeId, in.OutNodeId, in.IsRecurrent, in.OldInnovNum)
+		}
+		seen[k] = true
+	}
+	if x != nil {
+		h := newFnv()
+		for _, in := range pop.VInnovationsRaw() {
+			h.i(in.InNodeId)
+			h.i(in.OutNodeId)
+			h.i(int(in.InnovationNum))
+		}
+		x.EndHash = uint64(h)
+	}
+	return "", ""
+}
+
+func c03Generations(c *Ctx) {
+	L := 3
+	if !c.Quick() {
+		L = 4
+	}
+	var firsts []c03Step
+	for p := range c03Pool() {
+		for _, op := range c03Ops {
+			firsts = append(firsts, c03Step{p, op})
+		}
+	}
+	c.Sharded(len(firsts), func(fi int) {
+		var seqs [][]c03Step
+		var rec func(cur []c03Step)
+		rec = func(cur []c03Step) {
+			if len(cur) >= 2 {
+				seqs = append(seqs, append([]c03Step(nil), cur...))
+			}
+			if len(cur) == L {
+				return
+			}
+			for _, f := range firsts {
+				rec(append(cur, f))
+			}
+		}
+		rec([]c03Step{firsts[fi]})
+		var execs, steps int64
+		for _, seq := range seqs {
+			if c.Expired() {
+				c.MarkCapped("generation stage: internal deadline reached before every step sequence was explored")
+				break
+			}
+			for _, pn := range []string{"Z", "M", "A"} {
+				seq := seq
+				ex := &Explorer{Policy: parsePolicy(pn), MaxDev: 1, Horizon: 3000, Stop: c.Expired}
+				report := func(x *Exec, clause, msg string) {
+					js, _ := jsonMarshal(seq)
+					rp := &Replay{Scenario: "generation", Params: map[string]interface{}{"steps": string(js), "policy": pn}, Answers: x.Answers(), Clause: msg}
+					c.ViolateOrd("C03/generation/"+clause, int64(len(seq)*1000+len(x.Points)), fmt.Sprintf("[one sequential generation, steps %s] %s", string(js), msg), rp)
+				}
+				ex.Body = func(x *Exec) {
+					if clause, msg := c03RunGeneration(seq, x); clause != "" {
+						report(x, clause, msg)
+					}
+					c.Distinct(x.EndHash ^ 0xc03)
+				}
+				ex.OnPanic = func(x *Exec, r interface{}, stack string) {
+					report(x, "panic", fmt.Sprintf("panic: %v", r))
+				}
+				ex.Run()
+				execs += ex.Executions
+				steps += ex.Executions * int64(len(seq))
+			}
+		}
+		c.mu.Lock()
+		c.Evaluations += execs
+		c.Traces += execs
+		c.Transitions += steps
+		c.mu.Unlock()
+		c.Count("generation_stage_sequences", int64(len(seqs)))
+		c.Count("generation_stage_executions", execs)
+	})
+}
+
+func c03ReplayGeneration(c *Ctx, rp *Replay) (bool, string) {
+	var seq []c03Step
+	if err := jsonUnmarshal([]byte(paramStr(rp, "steps")), &seq); err != nil {
+		return false, "cannot parse steps: " + err.Error()
+	}
+	ex := &Explorer{Policy: parsePolicy(paramStr(rp, "policy")), Horizon: 5000}
+	var got string
+	var pan interface{}
+	ex.Body = func(x *Exec) { _, got = c03RunGeneration(seq, x) }
+	ex.OnPanic = func(x *Exec, r interface{}, stack string) { pan = r }
+	ex.RunOne(rp.Answers)
+	if pan != nil {
+		return true, fmt.Sprintf("panic: %v", pan)
+	}
+	if got != "" {
+		return true, got
+	}
+	return false, fmt.Sprintf("generation %v", seq)
 }
